@@ -29,6 +29,9 @@ func (s *Script) Read(p []byte) (int, error) {
 	switch s.End {
 	case 0:
 		Block()
+	case 3:
+		// end the session without ending the path: the harness observes afterwards
+		panic(Blocked{})
 	case 1:
 		s.After++
 		if s.After > 8 {
